@@ -20,6 +20,45 @@ pub const KEYS: [&str; 4] = ["p", "q", "t", "name"];
 pub const HNAMES: [&str; 2] = ["h1", "h2"];
 pub const ID_KEY: &str = "_id";
 
+/// Odd-but-legal names.  `GraphStore`'s API takes any string as a label, a relationship
+/// type, a property key or a hierarchy index name; Cypher text cannot spell these, so they
+/// are reachable only through the store API (the builder falls back to it).  Each list
+/// holds: the empty string, whitespace-only, a plain name with leading / trailing
+/// whitespace or in the other case (a reader that trims or folds would merge it with its
+/// plain neighbour), quotes, backslash, the JSON-significant characters (`{ } [ ] , :`, a
+/// whole record discriminator, a line break — the format is JSON *lines*), a JSON literal,
+/// non-BMP and combining unicode, and (keys) the names of the format's own fields.
+/// An event refers to a name by index into `plain ++ odd` (`label_at` ...), so indices
+/// below the length of the plain list mean what they always meant.
+pub const ODD_LABELS: [&str; 14] = ["", " ", "A ", " B", "a", "\t\n", "q\"uo'te", "back\\slash", "{\"t\":\"e\"}", "[x,y]:z", "null", "日本𝄞", "e\u{301}", "line\nbreak"];
+pub const ODD_TYPES: [&str; 11] = ["", " ", "T ", " U", "t", "ty\"pe'", "b\\s", "{\"t\":\"n\"}", "[a,b]:c", "тип𝄞", "x\ny"];
+pub const ODD_KEYS: [&str; 14] = ["", " ", "p ", " q", "P", "k\"q'", "b\\s", "{\"t\":\"h\"}", "[a.b,c]:d", "ключ𝄞", "x\ny", "__type", "props", "labels"];
+pub const ODD_HNAMES: [&str; 5] = ["", " h1", "h\"q'", "{\"t\":\"n\"}", "索引𝄞"];
+
+fn at(plain: &[&'static str], odd: &[&'static str], i: u64) -> &'static str {
+    let i = (i as usize) % (plain.len() + odd.len());
+    if i < plain.len() {
+        plain[i]
+    } else {
+        odd[i - plain.len()]
+    }
+}
+pub fn label_at(i: u64) -> &'static str {
+    at(&LABELS, &ODD_LABELS, i)
+}
+pub fn type_at(i: u64) -> &'static str {
+    at(&TYPES, &ODD_TYPES, i)
+}
+pub fn key_at(i: u64) -> &'static str {
+    at(&KEYS, &ODD_KEYS, i)
+}
+pub fn hname_at(i: u64) -> &'static str {
+    at(&HNAMES, &ODD_HNAMES, i)
+}
+fn plain_ident(s: &str) -> bool {
+    !s.is_empty() && s.chars().all(|c| c.is_ascii_alphanumeric() || c == '_')
+}
+
 // ---------------------------------------------------------------------------------
 // generation
 
@@ -215,6 +254,144 @@ pub fn gen_bulk(r: &mut Rng, words: u64) -> (Vec<Value>, Value) {
     (out, del)
 }
 
+fn odd_index(r: &mut Rng, plain: usize, odd: usize) -> u64 {
+    // the empty string is the classic boundary name: one pick in four
+    if r.chance(1, 4) {
+        plain as u64
+    } else {
+        (plain + r.usize_below(odd)) as u64
+    }
+}
+
+/// Overlay of odd-but-legal names (`ODD_*`) on a generated history: about one name slot in
+/// `density` (drawn per run: 2 / 3 / 5) — a label of a node creation or label addition, a
+/// relationship type, a property key of a creation or a property write, the edge types /
+/// measure label / measure property / name of a hierarchy declaration — is replaced by an
+/// odd string, and now and then an odd label is added next to the labels a node creation
+/// already has.  So odd names occur alone and next to ordinary ones, on every route that
+/// can carry them (a Cypher-route event whose names Cypher cannot spell is executed
+/// through the store API by the builder).  Bulk events keep their plain names.
+pub fn gen_odd_names(r: &mut Rng, events: &mut [Value]) {
+    let density = [2u64, 3, 5][r.usize_below(3)];
+    let odd_key = |r: &mut Rng| ODD_KEYS[(odd_index(r, KEYS.len(), ODD_KEYS.len()) as usize) - KEYS.len()];
+    let rename_props = |r: &mut Rng, ev: &mut Value| {
+        let Some(p) = ev.get_mut("props").and_then(|x| x.as_object_mut()) else { return };
+        let keys: Vec<String> = p.keys().cloned().collect();
+        for k in keys {
+            if r.chance(1, density) {
+                let nk = odd_key(r);
+                if !p.contains_key(nk) {
+                    if let Some(v) = p.remove(&k) {
+                        p.insert(nk.to_string(), v);
+                    }
+                }
+            }
+        }
+    };
+    for ev in events.iter_mut() {
+        let kind = ev.get("op").and_then(|x| x.as_str()).unwrap_or("").to_string();
+        match kind.as_str() {
+            "node" => {
+                let mut ls: Vec<u64> = ev["labels"].as_array().map(|a| a.iter().map(|x| x.as_u64().unwrap_or(0)).collect()).unwrap_or_default();
+                for i in 0..ls.len() {
+                    if r.chance(1, density) {
+                        let l = odd_index(r, LABELS.len(), ODD_LABELS.len());
+                        if !ls.contains(&l) {
+                            ls[i] = l;
+                        }
+                    }
+                }
+                if !ls.is_empty() && ls.len() < 4 && r.chance(1, 2 * density) {
+                    let l = odd_index(r, LABELS.len(), ODD_LABELS.len());
+                    if !ls.contains(&l) {
+                        ls.push(l);
+                    }
+                }
+                ev["labels"] = json!(ls);
+                rename_props(r, ev);
+            }
+            "edge" => {
+                if r.chance(1, density) {
+                    ev["type"] = json!(odd_index(r, TYPES.len(), ODD_TYPES.len()));
+                }
+                rename_props(r, ev);
+            }
+            "set" => {
+                if r.chance(1, density) {
+                    ev["key"] = json!(odd_index(r, KEYS.len(), ODD_KEYS.len()));
+                }
+            }
+            "add_label" => {
+                if r.chance(1, density) {
+                    ev["label"] = json!(odd_index(r, LABELS.len(), ODD_LABELS.len()));
+                }
+            }
+            "hier" => {
+                let mut ts: Vec<u64> = ev["types"].as_array().map(|a| a.iter().map(|x| x.as_u64().unwrap_or(0)).collect()).unwrap_or_default();
+                for i in 0..ts.len() {
+                    if r.chance(1, density) {
+                        let t = odd_index(r, TYPES.len(), ODD_TYPES.len());
+                        if !ts.contains(&t) {
+                            ts[i] = t;
+                        }
+                    }
+                }
+                ev["types"] = json!(ts);
+                if r.chance(1, density) {
+                    ev["name"] = json!(odd_index(r, HNAMES.len(), ODD_HNAMES.len()));
+                }
+                if ev["measure"].is_object() {
+                    if !ev["measure"]["label"].is_null() && r.chance(1, density) {
+                        ev["measure"]["label"] = json!(odd_index(r, LABELS.len(), ODD_LABELS.len()));
+                    }
+                    if r.chance(1, density) {
+                        ev["measure"]["prop"] = json!(odd_index(r, KEYS.len(), ODD_KEYS.len()));
+                    }
+                }
+            }
+            _ => {}
+        }
+    }
+}
+
+/// Odd-but-legal keys *inside* a value: now and then (about one property value in 12) a
+/// value of a creation or a property write is replaced by a map whose keys are the names
+/// the format itself uses to tag non-JSON types (`__type`, `value`, `months`, ...).  Such a
+/// map is an ordinary `PropertyValue::Map` (e.g. `{__type: 'DateTime', value: 5}`); the last two shapes are controls that no reader
+/// should mistake for a tag.
+pub fn gen_tag_lookalikes(r: &mut Rng, events: &mut [Value]) {
+    fn lookalike(r: &mut Rng) -> Value {
+        match r.below(6) {
+            0 => json!({"m": {"__type": {"s": "DateTime"}, "value": {"i": r.range(-3, 3)}}}),
+            1 => json!({"m": {"__type": {"s": "Vector"}, "value": {"a": [jf(1.5), jf(0.0)]}}}),
+            2 => json!({"m": {"__type": {"s": "Duration"}, "months": {"i": 1}, "days": {"i": r.range(0, 3)}, "seconds": {"i": 0}, "nanos": {"i": 0}}}),
+            3 => json!({"m": {"__type": {"s": "Duration"}}}),
+            4 => json!({"m": {"__type": {"s": "Map"}, "value": {"i": 1}}}),
+            _ => json!({"m": {"__type": {"i": 1}, "value": {"s": "DateTime"}}}),
+        }
+    }
+    for ev in events.iter_mut() {
+        let kind = ev.get("op").and_then(|x| x.as_str()).unwrap_or("").to_string();
+        match kind.as_str() {
+            "node" | "edge" => {
+                if let Some(p) = ev.get_mut("props").and_then(|x| x.as_object_mut()) {
+                    for (_, v) in p.iter_mut() {
+                        if r.chance(1, 12) {
+                            *v = lookalike(r);
+                        }
+                    }
+                }
+            }
+            "set" => {
+                if r.chance(1, 12) {
+                    ev["val"] = lookalike(r);
+                }
+            }
+            _ => {}
+        }
+    }
+}
+
 /// Simpler variants of one builder event, for the shrinker.
 pub fn shrink_builder_event(ev: &Value) -> Vec<Value> {
     let mut out = Vec::new();
@@ -233,12 +410,32 @@ pub fn shrink_builder_event(ev: &Value) -> Vec<Value> {
                     out.push(e);
                 }
             }
+            if kind == "edge" && u(ev, "type") != 0 {
+                let mut e = ev.clone();
+                e["type"] = json!(0);
+                out.push(e);
+            }
             if kind == "node" {
                 if let Some(ls) = ev["labels"].as_array() {
                     if ls.len() > 1 {
                         let mut e = ev.clone();
                         e["labels"] = json!([ls[0].clone()]);
                         out.push(e);
+                        // each label on its own, and each label dropped
+                        for i in 1..ls.len() {
+                            let mut e = ev.clone();
+                            e["labels"] = json!([ls[i].clone()]);
+                            out.push(e);
+                        }
+                        if ls.len() > 2 {
+                            for i in 0..ls.len() {
+                                let mut rest = ls.clone();
+                                rest.remove(i);
+                                let mut e = ev.clone();
+                                e["labels"] = json!(rest);
+                                out.push(e);
+                            }
+                        }
                     }
                     if ls.len() != 1 || ls[0] != json!(0) {
                         let mut e = ev.clone();
@@ -257,6 +454,18 @@ pub fn shrink_builder_event(ev: &Value) -> Vec<Value> {
             if ev["val"] != json!({"i":1}) {
                 let mut e = ev.clone();
                 e["val"] = json!({"i":1});
+                out.push(e);
+            }
+            if u(ev, "key") != 0 {
+                let mut e = ev.clone();
+                e["key"] = json!(0);
+                out.push(e);
+            }
+        }
+        "add_label" => {
+            if u(ev, "label") != 0 {
+                let mut e = ev.clone();
+                e["label"] = json!(0);
                 out.push(e);
             }
         }
@@ -297,6 +506,11 @@ pub fn shrink_builder_event(ev: &Value) -> Vec<Value> {
             if ev["reverse"] == json!(true) {
                 let mut e = ev.clone();
                 e["reverse"] = json!(false);
+                out.push(e);
+            }
+            if u(ev, "name") >= HNAMES.len() as u64 {
+                let mut e = ev.clone();
+                e["name"] = json!(0);
                 out.push(e);
             }
         }
@@ -354,7 +568,7 @@ fn cy_lit(v: &Value) -> Option<String> {
 fn cy_props(props: &[(String, Value)]) -> Option<String> {
     let mut parts = Vec::new();
     for (k, v) in props {
-        if !k.chars().all(|c| c.is_ascii_alphanumeric() || c == '_') {
+        if !plain_ident(k) {
             return None;
         }
         parts.push(format!("{k}: {}", cy_lit(v)?));
@@ -418,7 +632,7 @@ impl Builder {
         match kind {
             "node" => {
                 let labels: Vec<&str> =
-                    ev["labels"].as_array().map(|a| a.iter().map(|x| LABELS[(x.as_u64().unwrap_or(0) as usize) % LABELS.len()]).collect()).unwrap_or_default();
+                    ev["labels"].as_array().map(|a| a.iter().map(|x| label_at(x.as_u64().unwrap_or(0))).collect()).unwrap_or_default();
                 let mut props: Vec<(String, Value)> = ev["props"].as_object().map(|o| o.iter().map(|(k, v)| (k.clone(), v.clone())).collect()).unwrap_or_default();
                 let key = if self.auto_id {
                     let k = self.next_key;
@@ -474,10 +688,10 @@ impl Builder {
             }
             "edge" => {
                 let (Some(s), Some(t)) = (self.pick_node(u(ev, "s")), self.pick_node(u(ev, "t"))) else { return false };
-                let ty = TYPES[(u(ev, "type") as usize) % TYPES.len()];
+                let ty = type_at(u(ev, "type"));
                 let props: Vec<(String, Value)> = ev["props"].as_object().map(|o| o.iter().map(|(k, v)| (k.clone(), v.clone())).collect()).unwrap_or_default();
                 let mut done = false;
-                if via == "cypher" && self.auto_id && s.1 > 0 && t.1 > 0 {
+                if via == "cypher" && self.auto_id && s.1 > 0 && t.1 > 0 && TYPES.contains(&ty) {
                     if let Some(p) = cy_props(&props) {
                         let before = self.g.edge_count();
                         let q = format!(
@@ -523,12 +737,12 @@ impl Builder {
             }
             "set" => {
                 let Some(n) = self.pick_node(u(ev, "n")) else { return false };
-                let k = KEYS[(u(ev, "key") as usize) % KEYS.len()];
+                let k = key_at(u(ev, "key"));
                 let pv = pv_from_json(&ev["val"]);
                 let nid = NodeId::new(n.0);
                 let versions_before = self.g.all_nodes().iter().filter(|x| x.id == nid).count();
                 let mut done = false;
-                if via == "cypher" && n.1 > 0 {
+                if via == "cypher" && n.1 > 0 && plain_ident(k) {
                     if let Some(l) = cy_lit(&ev["val"]) {
                         let q = format!("MATCH (n {{{ID_KEY}: {}}}) SET n.{k} = {l}", n.1);
                         match self.engine.get_or_insert_with(QueryEngine::new).execute_mut(&q, &mut self.g, "default") {
@@ -558,7 +772,7 @@ impl Builder {
             }
             "add_label" => {
                 let Some(n) = self.pick_node(u(ev, "n")) else { return false };
-                let l = LABELS[(u(ev, "label") as usize) % LABELS.len()];
+                let l = label_at(u(ev, "label"));
                 let _ = self.g.add_label_to_node("default", NodeId::new(n.0), l);
                 true
             }
@@ -701,16 +915,16 @@ impl Builder {
                 true
             }
             "hier" => {
-                let name = HNAMES[(u(ev, "name") as usize) % HNAMES.len()];
-                let types: Vec<EdgeType> = ev["types"].as_array().map(|a| a.iter().map(|x| EdgeType::new(TYPES[(x.as_u64().unwrap_or(0) as usize) % TYPES.len()])).collect()).unwrap_or_default();
+                let name = hname_at(u(ev, "name"));
+                let types: Vec<EdgeType> = ev["types"].as_array().map(|a| a.iter().map(|x| EdgeType::new(type_at(x.as_u64().unwrap_or(0)))).collect()).unwrap_or_default();
                 if types.is_empty() {
                     return false;
                 }
                 let mut spec = HierarchySpec::new(name, types);
                 spec.reverse = ev["reverse"].as_bool().unwrap_or(false);
                 if let Some(m) = ev["measure"].as_object() {
-                    let label = m.get("label").and_then(|x| x.as_u64()).map(|i| Label::new(LABELS[(i as usize) % 3]));
-                    let prop = KEYS[(m.get("prop").and_then(|x| x.as_u64()).unwrap_or(0) as usize) % KEYS.len()];
+                    let label = m.get("label").and_then(|x| x.as_u64()).map(|i| Label::new(label_at(i)));
+                    let prop = key_at(m.get("prop").and_then(|x| x.as_u64()).unwrap_or(0));
                     let ops: Vec<RollupOp> = m.get("ops").and_then(|x| x.as_array()).map(|a| a.iter().filter_map(|o| o.as_str().and_then(RollupOp::parse)).collect()).unwrap_or_default();
                     spec = spec.with_measure(label, prop, if ops.is_empty() { vec![RollupOp::Sum] } else { ops });
                 }
@@ -1024,11 +1238,36 @@ fn node_diff(o: &CNode, i: &CNode, who: &str) -> Vec<(String, String)> {
         if o.labels.is_empty() && i.labels == only_empty {
             out.push(("label/unlabelled_node_gets_empty_label".to_string(), format!("{who}: no labels originally, labels {:?} after import", i.labels)));
         } else {
-            out.push(("label/label_set_changed".to_string(), format!("{who}: labels {:?} became {:?}", o.labels, i.labels)));
+            // which way the set changed, and which kind of label went missing
+            let lost: Vec<&String> = o.labels.difference(&i.labels).collect();
+            let gained: Vec<&String> = i.labels.difference(&o.labels).collect();
+            let class = if gained.is_empty() {
+                if lost.iter().all(|l| l.is_empty()) {
+                    "empty_string_label_lost"
+                } else if lost.iter().all(|l| l.trim().is_empty()) {
+                    "whitespace_only_label_lost"
+                } else {
+                    "label_lost"
+                }
+            } else if lost.is_empty() {
+                "label_appeared"
+            } else if lost.len() == gained.len() && lost.iter().all(|l| gained.iter().any(|g| g.as_str() == l.trim())) {
+                "label_trimmed"
+            } else {
+                "label_set_changed"
+            };
+            out.push((format!("label/{class}"), format!("{who}: labels {:?} became {:?}", o.labels, i.labels)));
         }
     }
     props_diff(&o.props, &i.props, "value", who, &mut out);
     out
+}
+
+/// Does some node or relationship of `g` hold a map property with a `__type` key (a map
+/// that looks like one of the format's tagged values)?
+pub fn has_tag_lookalike(g: &GraphStore) -> bool {
+    let is = |v: &PropertyValue| matches!(v, PropertyValue::Map(m) if m.contains_key("__type"));
+    cnodes(g).iter().any(|n| n.props.values().any(|v| is(v))) || g.all_edges().iter().any(|e| e.properties.iter().any(|(_, v)| is(v)))
 }
 
 /// Node ids of `g` that have more than one stored version.
